@@ -598,11 +598,10 @@ impl World<'_> {
                         detail: format!("AutoStream::auto({}) built as {before:?}, expected {want:?}", sk_name(*sk)),
                     });
                 }
+                // (whether an existing stream follows later changes of the world is not part of
+                // the property; only the decision at construction is judged)
                 if after != before {
-                    return Err(EViolation {
-                        class: "mode-not-sticky".into(),
-                        detail: format!("stream on {} was built as {before:?} but reports {after:?} after {inner:?}", sk_name(*sk)),
-                    });
+                    self.probe("stream_mode_followed_world_change");
                 }
                 Ok(())
             }
